@@ -23,7 +23,8 @@ pub const K_RESULT: u8 = 1; // off&1: raw_result into a dirty buffer
 pub const K_RESET: u8 = 2;
 pub const K_RESET_KEY: u8 = 3; // arg = key len, seed = key seed (legacy BLAKE2 only)
 pub const K_FORK: u8 = 4;
-const KINDS: &[&str] = &["input", "result", "reset", "reset_with_key", "fork"];
+pub const K_RESET_PLAIN: u8 = 5; // Digest::reset / inherent reset of a legacy BLAKE2 MAC: documented as "state after new" (unkeyed)
+const KINDS: &[&str] = &["input", "result", "reset", "reset_with_key", "fork", "reset_to_unkeyed"];
 
 pub struct Lifecycle;
 
@@ -123,12 +124,15 @@ impl Scenario for Lifecycle {
         let misuse = rng.chance(1, 2); // fault-free and fault-injecting configurations are separate
         let max_handles = rng.range(1, 3) as usize;
         let nops = rng.range(2, if tier == Tier::Thorough { 40 } else { 20 });
-        let mut w = [12u32, 4, 0, 0, 0];
+        let mut w = [12u32, 4, 0, 0, 0, 0];
         if rng.chance(3, 4) {
             w[K_RESET as usize] = 3;
         }
         if matches!(v.class, Class::BlakeMac(_)) && rng.chance(1, 2) {
             w[K_RESET_KEY as usize] = 2;
+        }
+        if matches!(v.class, Class::BlakeMac(_)) && rng.chance(1, 3) {
+            w[K_RESET_PLAIN as usize] = 2;
         }
         if rng.chance(1, 2) {
             w[K_FORK as usize] = 2;
@@ -164,6 +168,10 @@ impl Scenario for Lifecycle {
                 }
                 K_RESET => {
                     t.ops.push(Op::new(h as u8, K_RESET));
+                    sh[h] = (0, false);
+                }
+                K_RESET_PLAIN => {
+                    t.ops.push(Op::new(h as u8, K_RESET_PLAIN));
                     sh[h] = (0, false);
                 }
                 K_RESET_KEY => {
@@ -308,6 +316,19 @@ impl Scenario for Lifecycle {
                     hd.log.clear();
                     hd.done = None;
                     hd.resets = 0; // a re-key is a fresh keyed start
+                }
+                K_RESET_PLAIN => {
+                    if !matches!(v.class, Class::BlakeMac(_)) {
+                        continue;
+                    }
+                    let hd = hs[h].as_mut().unwrap();
+                    obs.hit("fault.reset_to_unkeyed");
+                    guarded(|| hd.obj.reset_plain()).map_err(|m| Violation::new("unexpected-panic", i, "reset", m, name))?;
+                    // documented: "Reset the context to the state after calling `new`" - an unkeyed object from here on
+                    hd.key.clear();
+                    hd.log.clear();
+                    hd.done = None;
+                    hd.resets = 0;
                 }
                 K_FORK => {
                     if hs.len() >= 6 {
